@@ -25,22 +25,37 @@ def _expect(cond, msg):
 # ----------------------------------------------------------------------------- buses
 
 def bus_term(bus) -> str:
+    """A built-in bus as the model's [bus]: which mapping owns each bank is PROBED through the public
+    get_mapping_for_bank(bank) for banks 0..255 (how the class stores its lookup is its own business),
+    the mapping parameters are read from the Mapping objects it returns."""
     from a816.cpu.mapping import Bus, Mapping
     _expect(type(bus) is Bus, f"bus object is {type(bus)}")
-    _expect(isinstance(bus.lookup, dict) and isinstance(bus.mappings, dict), "bus.lookup/mappings not dicts")
+    _expect(isinstance(bus.mappings, dict), "bus.mappings is not a dict")
     _expect(bus.editable in (True, False), "bus.editable not a bool")
-    # dict bank -> identifier, compressed into maximal runs (ascending; keys are disjoint so order is irrelevant)
+    names = {}
+    for ident, m in bus.mappings.items():
+        _expect(isinstance(ident, str) and type(m) is Mapping, "mappings entry shape")
+        names[id(m)] = ident
     ranges = []
-    for bank in sorted(bus.lookup):
-        _expect(isinstance(bank, int) and isinstance(bus.lookup[bank], str), "lookup entry shape")
-        ident = bus.lookup[bank]
+    for bank in range(0, 256):
+        try:
+            m = bus.get_mapping_for_bank(bank)
+        except KeyError:
+            continue
+        _expect(type(m) is Mapping and id(m) in names, "get_mapping_for_bank returned an unknown mapping")
+        ident = names[id(m)]
         if ranges and ranges[-1][2] == ident and ranges[-1][1] == bank - 1:
             ranges[-1][1] = bank
         else:
             ranges.append([bank, bank, ident])
+    for probe in (-1, 256, 300):
+        try:
+            bus.get_mapping_for_bank(probe)
+            raise Shape(f"bank {probe} is mapped: the model assumes banks 0..255")
+        except KeyError:
+            pass
     maps = []
     for ident, m in bus.mappings.items():
-        _expect(type(m) is Mapping, "mapping object type")
         _expect(isinstance(m.mask, int) and isinstance(m.bank_range, tuple) and len(m.bank_range) == 2, "mapping fields")
         _expect(m.writable in (True, False), "writable not a bool")
         # the model's m_writable means `self.writable is not False`
